@@ -315,12 +315,12 @@ func (env *ExecEnv) expandParam(fields []*field, pe *ast.ParamExp, mode ExpMode)
 	case pe.Op == "":
 		// simplest form
 		switch {
+		case !set && env.Opts&NoUnset != 0:
+			goto Unset
 		case mode&Arith != 0 && !(env.isSpParam(pe.Name.Value) || env.isPosParam(pe.Name.Value)):
 			fields[len(fields)-1].join(pe.Name.Value, quote)
 		case set && !null:
 			goto Param
-		case !set && env.Opts&NoUnset != 0:
-			goto Unset
 		}
 	case pe.Word == nil:
 		// string length
